@@ -34,32 +34,32 @@ def R(d):
 
 SPECS = {
     "fcppt::math::box::contains_point": {
-        "kind": "all_of", "scalars": {"p": "at(_point)", "lo": "at(pos(_box))", "hi": "at(max(_box))"},
+        "kind": "all_of", "scalars": {"p": "at(r_a1)", "lo": "at(pos(r_a0))", "hi": "at(max(r_a0))"},
         "domain": lambda r: True,
         "pred": lambda r: r.lo <= r.p < r.hi,
         "text": "pos <= p < max in every coordinate"},
     "fcppt::math::box::contains": {
-        "kind": "all_of", "scalars": {"op": "at(pos(_outer))", "om": "at(max(_outer))", "ip": "at(pos(_inner))", "im": "at(max(_inner))"},
+        "kind": "all_of", "scalars": {"op": "at(pos(r_a0))", "om": "at(max(r_a0))", "ip": "at(pos(r_a1))", "im": "at(max(r_a1))"},
         "domain": lambda r: r.ip < r.im,
         "pred": lambda r: r.op <= r.ip and r.im <= r.om,
         "text": "for non-empty inner: inner is a subset iff outer.pos <= inner.pos and inner.max <= outer.max"},
     "fcppt::math::box::intersects": {
-        "kind": "all_of", "scalars": {"ap": "at(pos(_a))", "am": "at(max(_a))", "bp": "at(pos(_b))", "bm": "at(max(_b))"},
+        "kind": "all_of", "scalars": {"ap": "at(pos(r_a0))", "am": "at(max(r_a0))", "bp": "at(pos(r_a1))", "bm": "at(max(r_a1))"},
         "domain": lambda r: r.ap < r.am and r.bp < r.bm,
         "pred": lambda r: max(r.ap, r.bp) < min(r.am, r.bm),
         "text": "for non-empty boxes: a common point exists iff max(pos) < min(max)"},
     "fcppt::math::box::intersection": {
-        "kind": "init_max", "scalars": {"ap": "at(pos(_a))", "am": "at(max(_a))", "bp": "at(pos(_b))", "bm": "at(max(_b))"},
+        "kind": "init_max", "scalars": {"ap": "at(pos(r_a0))", "am": "at(max(r_a0))", "bp": "at(pos(r_a1))", "bm": "at(max(r_a1))"},
         "domain": lambda r: True,
         "pair": lambda r: (max(r.ap, r.bp), min(r.am, r.bm)),
         "text": "intersection = (max of the positions, min of the maxima)", "guard": "fcppt::math::box::intersects"},
     "fcppt::math::box::extend_bounding_box#box": {
-        "kind": "init_max", "scalars": {"ap": "at(pos(_box1))", "am": "at(max(_box1))", "bp": "at(pos(_box2))", "bm": "at(max(_box2))"},
+        "kind": "init_max", "scalars": {"ap": "at(pos(r_a0))", "am": "at(max(r_a0))", "bp": "at(pos(r_a1))", "bm": "at(max(r_a1))"},
         "domain": lambda r: True,
         "pair": lambda r: (min(r.ap, r.bp), max(r.am, r.bm)),
         "text": "bounding box = (min of the positions, max of the maxima)"},
     "fcppt::math::box::extend_bounding_box#point": {
-        "kind": "init_max", "scalars": {"p": "at(_pos)", "lo": "at(pos(_box))", "hi": "at(max(_box))"},
+        "kind": "init_max", "scalars": {"p": "at(r_a1)", "lo": "at(pos(r_a0))", "hi": "at(max(r_a0))"},
         "domain": lambda r: True,
         "pair": lambda r: (min(r.p, r.lo), max(r.p, r.hi)),
         "text": "extended box = (min(p, pos), max(p, max))"},
@@ -134,8 +134,8 @@ def main(rep, tier, only):
                 for p in paths:
                     ev = [e for e in p.events]
                     g = [e for e in ev if e[0].split("<")[0] == spec["guard"]]
-                    if len(g) != 1 or sorted(sx.show(a) for a in g[0][1]) != ["_a", "_b"]:
-                        why = "the guard %s(_a, _b) is not evaluated exactly once" % spec["guard"]
+                    if len(g) != 1 or sorted(sx.show(a) for a in g[0][1]) != ["r_a0", "r_a1"]:
+                        why = "the guard %s(a, b) on the function's own two boxes is not evaluated exactly once" % spec["guard"]
                         break
                     dec = [b for a, b in p.decisions]
                     if dec and dec[0]:
@@ -234,7 +234,7 @@ def main(rep, tier, only):
             rep.broken("C13: interval outside fragment: %s" % e)
             continue
         v = ps[0].outcome[1]
-        ok = isinstance(v, tuple) and v[0] == "tuple" and [sx.show(x) for x in v[1]] == ["at(pos(_box))", "at(max(_box))"]
+        ok = isinstance(v, tuple) and v[0] == "tuple" and [sx.show(x) for x in v[1]] == ["at(pos(r_a0))", "at(max(r_a0))"]
         if ok:
             for x in v[1]:
                 k_ = x[1]
@@ -255,7 +255,7 @@ def main(rep, tier, only):
                 rep.broken("C13: %s outside fragment: %s" % (opname, e))
                 continue
             text = " ".join(sx.show_event(e) for p in ps for e in p.events) + " " + " ".join(sx.show(a) for p in ps for a, b in p.decisions)
-            comps = {c: ("%s(_a)" % c in text and "%s(_b)" % c in text) for c in ("pos", "size")}
+            comps = {c: ("%s(r_a0)" % c in text and "%s(r_a1)" % c in text) for c in ("pos", "size")}
             key = opname.replace("fcppt::math::box::", "box ")
             if want == "ne":
                 ok = "operator==" in text and all(p.outcome[0] == "return" for p in ps)
@@ -278,17 +278,19 @@ def main(rep, tier, only):
         if fn.get("kind") == "ctor":
             inits = {i["field"]: T.show(T.norm(u, i["init"])) for i in fn.get("inits", []) if i.get("field")}
             names = [p_["name"] for p_ in fn.get("params", [])]
-            key = "object(%s)|%s" % (",".join(names), "const" if False else "")
+            ptys = [(u.ty(p_["t"]) or "") for p_ in fn.get("params", [])]
+            kinds = ["dim" if "dim::object" in t_ else ("vec" if "vector::object" in t_ else "?") for t_ in ptys]
+            key = "object(%s)" % ",".join(kinds)
             exp = None
-            if names == ["_pos", "_size"]:
-                exp = {"min_": ("_pos",), "max_": ("operator+(_pos, _size)", "(_pos + _size)")}
-            elif names == ["_min", "_max"]:
-                exp = {"min_": ("_min",), "max_": ("_max",)}
+            if kinds == ["vec", "dim"]:       # (pos, size)
+                exp = {"min_": ("r_a0",), "max_": ("operator+(r_a0, r_a1)", "(r_a0 + r_a1)")}
+            elif kinds == ["vec", "vec"]:     # (min, max)
+                exp = {"min_": ("r_a0",), "max_": ("r_a1",)}
             if exp is None or key in seen:
                 continue
             seen.add(key)
             bad = [f for f, vs in exp.items() if not any(v in inits.get(f, "") and len(inits.get(f, "")) <= len(v) + 40 for v in vs)]
-            swapped = exp and names == ["_min", "_max"] and "_max" in inits.get("min_", "")
+            swapped = exp and kinds == ["vec", "vec"] and "r_a1" in inits.get("min_", "")
             (rep.fail if bad or swapped else rep.ok)("ACC", key, F.primary_site(fn), F.describe(fn)[:160],
                                                      **({"why": "constructor stores %s" % inits} if bad or swapped else {"how": str(inits)}))
             continue
